@@ -152,7 +152,7 @@ Lemma reg_comm k r a b :
   reg_apply k (reg_apply k r a) b = reg_apply k (reg_apply k r b) a.
 Proof.
   intros Hr Hne [Ha Ra] [Hb Rb].
-  destruct a as [| | |ia ka va|ia ka| | |], b as [| | |ib kb vb|ib kb| | |]; cbn [reg_apply]; try reflexivity;
+  destruct a as [| | |ia ka va|ia ka| | | | | | | |], b as [| | |ib kb vb|ib kb| | | | | | | |]; cbn [reg_apply]; try reflexivity;
     destruct (str_eqb k ka) eqn:Ea; destruct (str_eqb k kb) eqn:Eb; try reflexivity;
     try (apply str_eqb_eq in Ea); try (apply str_eqb_eq in Eb); subst;
     destruct r as [o|]; cbn [reg_put reg_rm];
